@@ -19,12 +19,14 @@ use std::collections::{BTreeMap, BTreeSet};
 pub struct C17;
 
 pub const NT: u32 = 96;
+/// terms of the fixture (generated cases use the first 96; the large sweeps up to 700 input sets)
+pub const NT_MAX: u32 = 700;
 
 thread_local! {
     static FLAT: Ontology = {
         // loaded from own v3 bytes; every seventh term is flagged obsolete (must not matter)
         let mut f = Facts::default();
-        for i in 1..=NT.max(118) {
+        for i in 1..=NT_MAX {
             f.terms.push(TermFact { id: i, name: format!("t{i}"), obsolete: i % 7 == 3, replacement: None });
         }
         crate::build::via_binary(&f, 3).expect("flat ontology")
@@ -94,7 +96,7 @@ pub fn check(c: &Case, stats: &mut Stats) -> CheckResult {
     let contents: Vec<BTreeSet<u32>> = c.sets.iter().map(|s| s.iter().copied().collect()).collect();
     let mut all = BTreeSet::new();
     for s in &contents {
-        ensure!(s.iter().all(|t| (1..=NT).contains(t) && all.insert(*t)), "harness/bad-case", "input sets must be disjoint, over 1..=96");
+        ensure!(s.iter().all(|t| (1..=NT_MAX).contains(t) && all.insert(*t)), "harness/bad-case", "input sets must be disjoint, over 1..=700");
     }
     // at most one empty input (two would be indistinguishable for the table lookup by content)
     ensure!(contents.iter().filter(|s| s.is_empty()).count() <= 1, "harness/bad-case", "at most one empty input set");
@@ -364,6 +366,30 @@ fn strategy(tier: Tier) -> BoxedStrategy<Case> {
         .boxed()
 }
 
+/// More input sets than an 8-bit index addresses: `n` singleton sets (every 9th with two terms),
+/// distinct pseudo-random distances (every 5th case of the seed: few distinct values, i.e. ties).
+pub fn big_case(n: usize, method: u8, seed: u64) -> Case {
+    let mut sets: Vec<Vec<u32>> = Vec::new();
+    let mut next = 1u32;
+    for i in 0..n {
+        let k = if i % 9 == 4 && (next as usize) + 2 * (n - i) < NT_MAX as usize { 2 } else { 1 };
+        sets.push((0..k).map(|_| { next += 1; next - 1 }).collect());
+    }
+    let coarse = seed % 5 == 0;
+    let mut table = vec![0.0f32; n * n];
+    let mut x = seed | 1;
+    for i in 0..n {
+        for j in i + 1..n {
+            x = x.wrapping_mul(6364136223846793005).wrapping_add(1442695040888963407);
+            let r = (x >> 40) as u32;
+            let v = if coarse { f32::from((r % 11) as u8) / 4.0 } else { r as f32 / 16_777_216.0 + ((i * 7 + j) % 50) as f32 };
+            table[i * n + j] = v;
+            table[j * n + i] = v;
+        }
+    }
+    Case { method: method % 4, sets, table, seed, shift: 0.25, iter_kind: (seed % 4) as u8, inf_pairs: vec![], inf_rate: 0, inf_neg: false, scale_exp: 0 }
+}
+
 impl Property for C17 {
     fn id(&self) -> &'static str {
         "C17"
@@ -384,12 +410,29 @@ impl Property for C17 {
         }
     }
     fn required_labels(&self, _tier: Tier) -> Vec<&'static str> {
-        vec!["nontrivial", "single", "complete", "average", "union", "tie", "multi-term-inputs", "empty-input-set", "input-iterator-without-exact-size", "all-merge-distances-negative", "mixed-sign-distances", "infinite-distance", "all-distances-infinite", "distance-below-epsilon", "distance-above-1e9"]
+        vec!["nontrivial", "single", "complete", "average", "union", "tie", "multi-term-inputs", "empty-input-set", "input-iterator-without-exact-size", "all-merge-distances-negative", "mixed-sign-distances", "infinite-distance", "all-distances-infinite", "distance-below-epsilon", "distance-above-1e9", "inputs>255"]
     }
     fn run_generated(&self, tier: Tier, seed: u64, n: u64, stats: &mut Stats) -> Option<(Value, Failure)> {
         run_typed(strategy(tier), seed, n, stats, check)
     }
     fn replay(&self, case: &Value, stats: &mut Stats) -> Result<CheckResult, String> {
+        if let Some(b) = case.get("big") {
+            let v: (usize, u8, u64) = serde_json::from_value(b.clone()).map_err(|e| e.to_string())?;
+            stats.cases += 1;
+            let r = check(&big_case(v.0, v.1, v.2), stats);
+            if r.is_ok() && v.0 > 255 {
+                stats.label("inputs>255");
+            }
+            return Ok(r);
+        }
         replay_typed::<Case, _>(case, stats, check)
+    }
+    fn isolated_plans(&self, tier: Tier, seed: u64) -> Vec<Value> {
+        let mut out: Vec<Value> = (0..4u8).map(|m| json!({"big": (if m == 3 { 258usize } else { 300 }, m, seed.wrapping_mul(31).wrapping_add(u64::from(m)))})).collect();
+        if tier == Tier::Thorough {
+            out.push(json!({"big": (600usize, 0u8, seed ^ 5)}));
+            out.push(json!({"big": (520usize, 2u8, seed ^ 10)}));
+        }
+        out
     }
 }
